@@ -371,8 +371,22 @@ theorem mantissaText_render (m3 : ℚ) (p : ℕ) (h1 : 1 ≤ |m3|)
       · simp only [hneg, ↓reduceIte, floor_eq]
         rw [hipz, ham, abs_of_nonneg (not_lt.mp hneg)]
     have hipos : 0 < ip := by omega
+    -- the printed decimals are exact, so rounding to them changes nothing
+    have hr : roundTo m3 post = m3 := by
+      unfold roundTo
+      have hp10 : pow10 (post : ℤ) = ((10 ^ post : ℕ) : ℚ) := pow10_natCast' post
+      have hP' : pow10 (post : ℤ) ≠ 0 := ne_of_gt (pow10_pos _)
+      by_cases hneg : m3 < 0
+      · have habs : am = -m3 := by rw [ham]; exact abs_of_neg hneg
+        have e : m3 * pow10 (post : ℤ) = (((-(N : ℤ)) : ℤ) : ℚ) := by
+          rw [hp10]; rw [habs] at hN; push_cast at hN ⊢; linarith
+        rw [e, rhe_intCast, ← e]; field_simp
+      · have habs : am = m3 := by rw [ham]; exact abs_of_nonneg (not_lt.mp hneg)
+        have e : m3 * pow10 (post : ℤ) = (((N : ℤ)) : ℚ) := by
+          rw [hp10]; rw [habs] at hN; push_cast at hN ⊢; linarith
+        rw [e, rhe_intCast, ← e]; field_simp
     unfold mantissaText
-    simp only [hq, hnot, ↓reduceIte, floor_eq, ← hip, ← hpost, hfrac, rhe_intCast, Int.toNat_natCast, htr]
+    simp only [hq, hnot, ↓reduceIte, floor_eq, ← hip, ← hpost, hr, hfrac, rhe_intCast, Int.toNat_natCast, htr]
     congr 1
     unfold intStr
     by_cases hneg : m3 < 0
